@@ -53,8 +53,10 @@ MkInput(ptr, recv, n, bad, ret, addr, second, single, ek, eaddr) ==
               [] second = "twoaddr" -> <<[F("h", "mut", 1, 0, "none", None) EXCEPT !.xattrs = <<"address(0x401000, 0x4010F0)">>]>>
               (* the second function in an impl block of its own / in a block for the enum / for a name nothing defines *)
               [] second \in {"twoblocks", "implenum", "implmissing", "implenumbad"} -> <<F("h", "mut", 1, 0, "none", 393216)>>
+              (* the function of the first block declared again in a second block of the type: declared twice *)
+              [] second = "twoblocksdup" -> <<F("f", "mut", 1, 0, "none", 393216)>>
               [] OTHER -> <<>>
-      blockOf2 == CASE second = "twoblocks" -> "T" [] second \in {"implenum", "implenumbad"} -> "E" [] second = "implmissing" -> "Nope" [] OTHER -> ""
+      blockOf2 == CASE second \in {"twoblocks", "twoblocksdup"} -> "T" [] second \in {"implenum", "implenumbad"} -> "E" [] second = "implmissing" -> "Nope" [] OTHER -> ""
       f2b == IF second = "implenumbad" THEN <<F("h", "mut", 1, 0, "none", None)>> ELSE f2   \* ... and without an address
       impls == (IF useBase THEN <<Impl("B", <<F("tick", "mut", 1, 0, "none", 458752)>>)>> ELSE <<>>)
                \o (IF blockOf2 # "" THEN <<Impl("T", <<f1>>), Impl(blockOf2, f2b)>>
